@@ -147,3 +147,38 @@ Fixpoint run_ops (h : heap) (refs : list href) (ops : list (nat * operand (F:=F)
 Definition no_silent_clobber (h h' : heap) (o : nat) : Prop :=
   forall l, l < length (h_arr h) -> arr h' l = arr h l \/ In l (owned h' o).
 End H.
+
+(* ------------------------------------------------------------------ tucker_mode_dot's copy flag (tensorly/tucker_tensor.py)
+     copy=True : factors = [tl.copy(f) for f in factors]; core = tl.copy(core)
+     contraction: f = factors.pop(mode)  (the list cell is updated -- the CALLER's list when copy=False);
+                  core = mode_dot(core, dot(v, f), mode)  -- a fresh core
+     otherwise  : factors[mode] = <fresh array>           (the list cell is updated)
+     always a fresh TuckerTensor((core, factors)) naming the (possibly new) core and the list.
+   No array and no core is ever overwritten.  Cores live in their own table. *)
+Section HT.
+Context {F : Type} (Op : fops F).
+Record theap := mk_theap { t_core : list (tensor F); t_arr : list (mat F); t_lst : list (list nat) }.
+Definition tarr (th : theap) (l : nat) : mat F := nth l (t_arr th) [].
+Definition tlst (th : theap) (l : nat) : list nat := nth l (t_lst th) [].
+Definition tcore (th : theap) (l : nat) : tensor F := nth l (t_core th) (mk [] []).
+Definition tread (th : theap) (cl fl : nat) : tensor F * list (mat F) := (tcore th cl, map (tarr th) (tlst th fl)).
+Definition twf (th : theap) (cl fl : nat) : Prop :=
+  cl < length (t_core th) /\ fl < length (t_lst th) /\ forall l, In l (tlst th fl) -> l < length (t_arr th).
+Definition tucker_mode_dot_h (th : theap) (cl fl : nat) (copy : bool) (x : operand (F:=F)) (mode : nat) (keep_dim : bool)
+  : res (theap * (nat * nat)) :=
+  match tucker_mode_dot Op (tcore th cl) (map (tarr th) (tlst th fl)) x mode keep_dim with
+  | Err => Err
+  | Ok (c', fs') =>
+      let ls := tlst th fl in
+      let th1 := if copy then mk_theap (t_core th ++ [tcore th cl]) (t_arr th ++ map (tarr th) ls)
+                                       (t_lst th ++ [seq (length (t_arr th)) (length ls)]) else th in
+      let cl1 := if copy then length (t_core th) else cl in
+      let fl1 := if copy then length (t_lst th) else fl in
+      let ls1 := tlst th1 fl1 in
+      if is_contract x keep_dim then
+        Ok (mk_theap (t_core th1 ++ [c']) (t_arr th1) (set_nth fl1 (remove_nth mode ls1) (t_lst th1)), (length (t_core th1), fl1))
+      else
+        Ok (mk_theap (t_core th1) (t_arr th1 ++ [nth mode fs' []]) (set_nth fl1 (set_nth mode (length (t_arr th1)) ls1) (t_lst th1)), (cl1, fl1))
+  end.
+End HT.
+
